@@ -18,10 +18,10 @@
     <=> m >= Krylov dimension, monotone, optimality certificate).  cola runs in float64 (every case) and float32
     (cond <= 2*10^4) with a tolerance below the precision; the exact residual of the returned iterate (rational
     arithmetic) must satisfy the bound of a backward-stable least-squares solve,
-        ||b - A x_m|| <= rho_m + SCALED_C * eps(dtype) * cond(A) * max(||b||, ||r0||),
+        ||b - A x_m|| <= rho_m + SCALED_C[dtype] * eps(dtype) * cond(A) * max(||b||, ||r0||),
     not an absolute bound that would hide a squared condition number.
 (5) Larger ill-conditioned systems (n <= 60, prescribed singular values, cond 10^4 .. 10^7 in float64, 10^2 .. 10^3 in
-    float32) run to m >= n: residual <= ILLCOND_C * eps * cond * ||r0|| (projection predicate, see the assumptions)."""
+    float32) run to m >= n: residual <= ILLCOND_C[dtype] * eps * cond * ||r0|| (projection predicate, see the assumptions)."""
 import json
 import math
 import os
@@ -39,11 +39,17 @@ from ..common import Violation  # noqa: E402
 
 PROP = "C13"
 TOLS = (1e-7, 1e-10)
-# Backward-stable bound for the badly scaled catalog and the ill-conditioned numeric family: the measured excess
-# (||b - A x|| - rho_m) / (eps * cond(A) * max(||b||, ||r0||)) of the unchanged tree and of a normal-equations solve of
-# the Hessenberg problem (seeded change C13_B) are recorded next to the definitions below.
-SCALED_C = 32.0
-ILLCOND_C = 32.0
+# Backward-stable bounds, in units of eps(dtype) * cond(A) * max(||b||, ||r0||).  Measured (NumPy backend, 2026-09):
+#   badly scaled catalog (all 660 thorough systems, every m, both entry points), excess (||b - A x|| - rho_m) / unit:
+#     float64: unchanged tree max 10.1 (tri3@2^13: LAPACK gelsd itself leaves 10 * eps * cond(H) on the Hessenberg
+#              problem), otherwise <= 1.8; Hessenberg problem through normal equations (seeded change C13_B):
+#              p90 = 1.2e4 / 8.3e4 / 1.2e6 at cond 1e5 / 1e6 / 1e7, max 4.1e6           -> 256 (geometric middle 354)
+#     float32: unchanged max 0.62; seeded p90 = 640 at cond 1e4, max 1.0e4              -> 16  (geometric middle 20)
+#   ill-conditioned numeric family (1008 systems over 12 seeds), ||b - A x|| / unit at m >= n:
+#     float64: unchanged max 1.15 (median 0.09); seeded min 830, median 7e4, max 6.4e6  -> 16  (geometric middle 31)
+#     float32: unchanged max 0.375 (median 0.09); seeded at cond 1e3 min 74, median 206 -> 5   (geometric middle 5.3)
+SCALED_C = {"f64": 256.0, "f32": 16.0}
+ILLCOND_C = {"f64": 16.0, "f32": 5.0}
 DTYPES = {"f64": (np.float64, 1e-14), "f32": (np.float32, 1e-7)}      # dtype, solver tolerance (below the precision)
 F32_MAX_COND = 2e4
 
@@ -488,7 +494,7 @@ def wide_attrs(job, dt, m, api, tol, columns=1, batch="single"):
             "early_breakdown": 1 <= job["kdim"] < min(m, job["n"])}
 
 
-def wide_judge(x, Aint, bint, rho, rho0, slack):
+def wide_judge(x, Aint, bint, rho, rho0, slack, allowed):
     """Returns (list of (clause, detail, extra attrs), exact residual norm | None, excess in units of eps*cond*scale)."""
     n = len(bint)
     if x.shape != (n, ):
@@ -496,12 +502,12 @@ def wide_judge(x, Aint, bint, rho, rho0, slack):
     if not np.all(np.isfinite(x)):
         return [("nonfinite", "solution contains NaN/Inf", {"iterate": "nonfinite"})], None, None
     res = exact_residual(Aint, bint, x)
-    unit = slack / SCALED_C
+    unit = slack / allowed
     ratio = (res - rho) / unit
     out = []
     if res > rho + slack:
         out.append(("residual", f"||b - A x|| = {res:.6g} (exact arithmetic), exact minimum over the Krylov space rho_m = {rho:.6g}: "
-                    f"excess {ratio:.3g} * eps*cond(A)*max(|b|,|r0|), allowed {SCALED_C:g}",
+                    f"excess {ratio:.3g} * eps*cond(A)*max(|b|,|r0|), allowed {allowed:g}",
                     {"iterate": "other", "excess": _excess_bucket(ratio)}))
     if res > rho0 + slack:
         out.append(("initial_residual", f"||b - A x|| = {res:.6g} exceeds the initial ||b - A x0|| = {rho0:.6g}",
@@ -530,7 +536,7 @@ def observe_wide(job, only=None):
         A = np.array(Aint, dtype=np.float64).astype(npdt)
         b = np.array(bint, dtype=npdt)
         x0 = np.array(x0int, dtype=npdt)
-        slack = SCALED_C * float(np.finfo(npdt).eps) * job["cond"] * max(float(np.linalg.norm(np.array(bint, dtype=float))), rho0)
+        slack = SCALED_C[dt] * float(np.finfo(npdt).eps) * job["cond"] * max(float(np.linalg.norm(np.array(bint, dtype=float))), rho0)
         for api in ("gmres", "inv"):
             prev = None
             for m in range(1, n + 3):
@@ -543,7 +549,8 @@ def observe_wide(job, only=None):
                 rho, _ = wide_expected(rec)
                 at = wide_attrs(job, dt, m, api, tol)
                 case = f"{job['id']} {dt} m={m} {api} tol={tol:g}"
-                rp = {"wide_job": dict(_wide_core(job), per_m={str(k): job["per_m"][str(k)] for k in {max(m - 1, 1), m}}),
+                rp = {"wide_job": dict(_wide_core(job), per_m={str(k): job["per_m"][str(k)] for k in {max(m - 1, 1), m}
+                                                               if str(k) in job["per_m"]}),
                       "m": m, "api": api, "dtype": dt}
                 n_eval += 1
                 x0_arg = None if (job["x0name"] == "0" and api == "inv") else x0
@@ -554,7 +561,7 @@ def observe_wide(job, only=None):
                                           f"{type(e).__name__}: {str(e)[:120]}", replay=rp))
                     prev = None
                     continue
-                found, res, ratio = wide_judge(x, Aint, bint, rho, rho0, slack)
+                found, res, ratio = wide_judge(x, Aint, bint, rho, rho0, slack, SCALED_C[dt])
                 for clause, detail, extra in found:
                     viol.append(Violation(PROP, clause, case, dict(at, **extra), detail, replay=rp))
                 if ratio is not None:
@@ -603,8 +610,8 @@ def observe_wide_multi(mj, only=None):
                     _, bint, _ = wide_arrays(c)
                     rho, _ = wide_expected(c["per_m"][str(m)])
                     rho0 = math.sqrt(c["rho2_0"])
-                    slack = SCALED_C * float(np.finfo(npdt).eps) * c["cond"] * rho0
-                    found, _, ratio = wide_judge(X[:, j], Aint, bint, rho, rho0, slack)
+                    slack = SCALED_C[dt] * float(np.finfo(npdt).eps) * c["cond"] * rho0
+                    found, _, ratio = wide_judge(X[:, j], Aint, bint, rho, rho0, slack, SCALED_C[dt])
                     at = dict(at0, regime=regime_of(m, c["kdim"], n), kdim=c["kdim"], column=j)
                     for clause, detail, extra in found:
                         viol.append(Violation(PROP, clause, case + f" column {j} ({c['id']})", dict(at, **extra), detail,
@@ -670,6 +677,7 @@ def observe_illcond(spec):
     cond = float(np.linalg.cond(A64))
     eps = float(np.finfo(npdt).eps)
     viol, n_eval, worst = [], 0, 0.0
+    allowed = ILLCOND_C[spec["dtype"]]
     R0 = B64 - A64 @ X064
     for m, api in ((n, "gmres"), (n + 3, "inv")):
         n_eval += 1
@@ -702,17 +710,18 @@ def observe_illcond(spec):
             res = float(np.linalg.norm(B64[:, j] - A64 @ X[:, j]))
             ratio = res / (eps * cond * r0n)
             worst = max(worst, ratio)
-            if ratio > ILLCOND_C:
+            if ratio > allowed:
                 viol.append(Violation(PROP, "residual", case, dict(at0, column=j, iterate="other", converged=True,
                                                                    excess=_excess_bucket(ratio)),
                                       f"||b - A x|| = {res:.6g} with m >= n (the exact minimum is 0): {ratio:.3g} * eps*cond(A)*||r0|| "
-                                      f"(eps = {eps:.3g}, cond = {cond:.3g}, ||r0|| = {r0n:.4g}), allowed {ILLCOND_C:g}", replay=rp))
+                                      f"(eps = {eps:.3g}, cond = {cond:.3g}, ||r0|| = {r0n:.4g}), allowed {allowed:g}", replay=rp))
     return viol, n_eval, worst
 
 
 # ------------------------------------------------------------------ run / replay
 ASSUMPTIONS = [
-    "NumPy backend only (float64 / complex128); the harness-side backend shim (harness/shim.py: vmap) is trusted",
+    "NumPy backend only (float64 / complex128, float32 on the badly scaled and ill-conditioned systems); the harness-side "
+    "backend shim (harness/shim.py: vmap) is trusted",
     "catalog systems: expected x_m, rho2_m, Krylov dimension and the Galerkin iterate are exact rationals computed by TLC "
     "(spec/LeastSquares.tla!GmresOpt); cola's floating-point result is compared with |res2 - rho2_m| <= 1e-6*max(rho2_0,|b|^2) + 1e-10 "
     "and |x - x_m| <= 1e-5*(1+|x_m|)",
@@ -720,19 +729,32 @@ ASSUMPTIONS = [
     "mirror of the formulas (harness/lsqfam.py) and counted (dropped_overflow); TLC's printed values must equal the mirror's",
     "larger random systems (n <= 150): the optimum is a dense least-squares solve over an orthonormal Krylov basis built "
     "in the harness with re-orthogonalised Arnoldi (harness-side projection predicate, not TLC): "
-    "||b - A x|| <= opt*(1+1e-5) + 1e-6*||r0||, applied where the projected Hessenberg matrix has condition <= 1e4 (the code "
-    "solves normal equations, which squares it); other columns are counted as skipped unless they are a recognisable "
-    "Galerkin iterate",
+    "||b - A x|| <= opt*(1+1e-5) + 1e-6*||r0||, applied where the projected Hessenberg matrix has condition <= 1e4; other "
+    "columns are counted as skipped unless they are a recognisable Galerkin iterate (ill-conditioned projected problems are "
+    "the subject of the two families above)",
+    "badly scaled catalog (n <= 4, entries powers of ten / two up to 1e7, cond 1e2 .. 2e7): rho2_m and x_m are exact rationals "
+    "computed by TLC with the wide (base 2^14) integers of spec/LeastSquares.tla (Gram-determinant ratio, Cramer's rule), "
+    "cross-checked in TLC by the optimality certificate and by ||b - A x_m||^2 = rho2_m on the exported iterate, and against an "
+    "unbounded-integer mirror in the harness (machinery self-check); cola runs in float64 (tol 1e-14) and, for cond <= 2e4, in "
+    "float32 (tol 1e-7); the residual of the returned floating-point iterate is evaluated in rational arithmetic and must "
+    "satisfy ||b - A x|| <= rho_m + C*eps(dtype)*cond_2(A)*max(||b||,||r0||) with C = 256 (float64) / 16 (float32): the bound of "
+    "a backward-stable solve of the Hessenberg least-squares problem with constants about 25 times the largest excess "
+    "measured on the unchanged tree (10.1 / 0.62) and below the geometric mean of that and the excess of a normal-equations "
+    "solve (>= 1e4 for cond >= 1e5); cond_2(A) is NumPy's (harness side)",
+    "ill-conditioned numeric family (n <= 60, prescribed singular values, cond 1e4 .. 1e7 in float64, 1e2 .. 1e3 in float32, "
+    "m >= n so that the exact minimal residual is 0): harness-side projection predicate, not TLC: "
+    "||b - A x|| <= C*eps(dtype)*cond_2(A)*||r0|| with C = 16 (float64) / 5 (float32); ASSUMPTION: a GMRES whose small "
+    "least-squares problem is solved backward-stably meets this bound (measured on the unchanged tree over 1008 systems: "
+    "<= 1.15 / 0.375), whereas a method that squares the condition number exceeds it (measured: >= 830 / >= 74 at cond 1e3)",
     "the number of products with A is counted in columns by a wrapping LinearOperator",
-    "tolerances tol in {1e-7 (default), 1e-10} on the catalog and 1e-8 on the random systems; looser tolerances make the "
-    "solver stop early on purpose and are not compared with the m-step optimum",
+    "tolerances tol in {1e-7 (default), 1e-10} on the catalog, 1e-8 on the random systems and below the precision (1e-14 / "
+    "1e-7) on the badly scaled and ill-conditioned systems; looser tolerances make the solver stop early on purpose and are "
+    "not compared with the m-step optimum",
 ]
 
 
-def build_jobs(tier):
-    cases, dropped = lsqfam.gmres_cases(tier)
-    wcases = lsqfam.gmres_wide_cases(tier)
-    out, stats = lsqfam.run_gmres_model(PROP, cases + wcases)
+def make_jobs(cases, wcases, out):
+    """Catalog cases + TLC's records -> replay jobs (ordinary, badly scaled)."""
     jobs = []
     for c in cases:
         per_m = {str(m): out[(c["id"], m)] for m in range(0, c["n"] + 3)}
@@ -748,7 +770,7 @@ def build_jobs(tier):
                       "b": lsqfam.jmat(c["b"]), "x0": lsqfam.jmat(c["x0"]), "n": c["n"], "kdim": c["kdim"],
                       "normal": c["normal"], "x0name": c["x0name"], "cond": float(np.linalg.cond(A)),
                       "rho2_0": lsqfam.wide_decode(out[(c["id"], 0)]["r0"]), "per_m": per_m})
-    return jobs, cases, dropped, stats, wjobs, wcases
+    return jobs, wjobs
 
 
 def multi_jobs(jobs):
@@ -769,55 +791,87 @@ def multi_jobs(jobs):
     return out
 
 
+def _task(arg):
+    """One unit of replay work in a pool worker: (kind, payload) -> (kind, result, seconds)."""
+    kind, x = arg
+    t = time.time()
+    if kind == "case":
+        r = observe_case(x)
+    elif kind == "multi":
+        r = observe_multi(x)
+    elif kind == "wide":
+        r = observe_wide(x)
+    elif kind == "wide_multi":
+        r = observe_wide_multi(x)
+    elif kind == "random":
+        r = observe_random(x)
+    elif kind == "illcond":
+        r = observe_illcond(x) + (x["dtype"], )
+    else:
+        raise ValueError(kind)
+    return kind, r, time.time() - t
+
+
 def run(tier):
+    """One process pool for all replay work.  cola is imported once, in the parent, before the workers are forked; the
+    numeric families (which do not need TLC) are submitted first and run while TLC evaluates the catalog; the TLC runs
+    (catalog and negative controls) are sub-processes started from threads after the fork."""
+    from concurrent.futures import ProcessPoolExecutor, ThreadPoolExecutor
     t0 = time.time()
     phase = {}
-    jobs, cases, dropped, stats, wjobs, wcases = build_jobs(tier)
-    phase["catalog+tlc"] = round(time.time() - t0, 1)
-    t1 = time.time()
-    neg = lsqfam.gmres_negative_control(PROP, cases, wcases)
-    if neg != 4:
-        common.machinery_failure(PROP, f"negative controls: MC_Gmres rejected {neg} of 4 corrupted catalogs")
-    phase["negative_controls"] = round(time.time() - t1, 1)
-    viol, n_eval = [], 0
-    t1 = time.time()
-    for v, k in common.pmap(observe_case, jobs, chunksize=2):
-        viol += v
-        n_eval += k
-    phase["catalog_replay"] = round(time.time() - t1, 1)
-    t1 = time.time()
-    mjobs = multi_jobs(jobs)
-    n_multi = 0
-    for v, k in _pmap_small(observe_multi, mjobs):
-        viol += v
-        n_multi += k
-    phase["multi_column"] = round(time.time() - t1, 1)
-    t1 = time.time()
-    n_wide = n_wide_multi = 0
-    worst_scaled = {}
-    wm = wide_multi_jobs(wjobs)
-    for v, k, w in common.pmap(_observe_wide_any, [("single", j) for j in wjobs] + [("multi", j) for j in wm], chunksize=2):
-        viol += v
-        n_wide += k
-        for dt, r in w.items():
-            worst_scaled[dt] = max(worst_scaled.get(dt, 0.0), r)
-    phase["scaled_catalog_replay"] = round(time.time() - t1, 1)
-    t1 = time.time()
+    _counting(np.eye(1))                                  # installs the shim and imports cola (current working tree)
+    from cola.linalg.inverse.gmres import GMRES, gmres    # noqa: F401
+    phase["import_cola"] = round(time.time() - t0, 1)
     specs = random_specs(tier, common.seed())
     ispecs = illcond_specs(tier, common.seed())
-    n_rand = n_skip = n_ill = 0
-    worst_ill = {}
-    for kind, r in _pmap_small(_observe_numeric, [("random", (s, tier)) for s in specs] + [("illcond", s) for s in ispecs]):
-        if kind == "random":
-            v, k, sk = r
-            n_rand += k
-            n_skip += sk
+    viol, cpu = [], {}
+    with ProcessPoolExecutor(max_workers=16) as ex:
+        # heaviest first (n = 150 systems take seconds)
+        numeric = sorted([("random", (s, tier)) for s in specs], key=lambda a: -a[1][0]["n"]) + [("illcond", s) for s in ispecs]
+        futs = [ex.submit(_task, a) for a in numeric]
+        t1 = time.time()
+        cases, dropped = lsqfam.gmres_cases(tier)
+        wcases = lsqfam.gmres_wide_cases(tier)
+        phase["catalog_mirror"] = round(time.time() - t1, 1)
+        t1 = time.time()
+        with ThreadPoolExecutor(max_workers=2) as tex:
+            f_model = tex.submit(lsqfam.run_gmres_model, PROP, cases + wcases)
+            f_neg = tex.submit(lsqfam.gmres_negative_control, PROP, cases, wcases)
+            out, stats = f_model.result()
+            neg = f_neg.result()
+        phase["tlc+negative_controls"] = round(time.time() - t1, 1)
+        if neg != 4:
+            common.machinery_failure(PROP, f"negative controls: MC_Gmres rejected {neg} of 4 corrupted catalogs")
+        jobs, wjobs = make_jobs(cases, wcases, out)
+        mjobs = multi_jobs(jobs)
+        wm = wide_multi_jobs(wjobs)
+        t1 = time.time()
+        futs += [ex.submit(_task, a) for a in ([("multi", j) for j in mjobs] + [("case", j) for j in jobs]
+                                               + [("wide", j) for j in wjobs] + [("wide_multi", j) for j in wm])]
+        results = [f.result() for f in futs]
+        phase["replay_after_tlc"] = round(time.time() - t1, 1)
+    n_eval = n_multi = n_wide = n_rand = n_skip = n_ill = 0
+    worst_scaled, worst_ill = {}, {}
+    # fixed reporting order: catalog, multi-column, scaled catalog, random systems, ill-conditioned family
+    order = {"case": 0, "multi": 1, "wide": 2, "wide_multi": 3, "random": 4, "illcond": 5}
+    for kind, r, secs in sorted(results, key=lambda x: order[x[0]]):
+        cpu[kind] = cpu.get(kind, 0.0) + secs
+        viol += r[0]
+        if kind == "case":
+            n_eval += r[1]
+        elif kind == "multi":
+            n_multi += r[1]
+        elif kind in ("wide", "wide_multi"):
+            n_wide += r[1]
+            for dt, w in r[2].items():
+                worst_scaled[dt] = max(worst_scaled.get(dt, 0.0), w)
+        elif kind == "random":
+            n_rand += r[1]
+            n_skip += r[2]
         else:
-            v, k, w, dt = r
-            n_ill += k
-            worst_ill[dt] = max(worst_ill.get(dt, 0.0), w)
-        viol += v
-    phase["random_systems"] = round(time.time() - t1, 1)
+            n_ill += r[1]
+            worst_ill[r[3]] = max(worst_ill.get(r[3], 0.0), r[2])
+    phase["worker_seconds_by_kind"] = {k: round(v, 1) for k, v in cpu.items()}
     regimes = {}
     for j in jobs + wjobs:
         for m in range(1, j["n"] + 3):
@@ -831,14 +885,16 @@ def run(tier):
         "scaled_catalog_calls": n_wide, "scaled_catalog_systems": len(wjobs), "scaled_multi_column_batches": len(wm),
         "scaled_catalog_matrices": len({j["mat"] for j in wjobs}),
         "scaled_cond_range": [min(j["cond"] for j in wjobs), max(j["cond"] for j in wjobs)] if wjobs else None,
+        "scaled_tlc_states": sum(j["n"] + 4 for j in wjobs),
         "scaled_largest_excess_over_eps_cond": {k: round(v, 3) for k, v in sorted(worst_scaled.items())},
         "scaled_allowed_excess": SCALED_C,
         "illcond_system_calls": n_ill, "illcond_systems": len(ispecs),
         "illcond_largest_residual_over_eps_cond": {k: round(v, 3) for k, v in sorted(worst_ill.items())},
         "illcond_allowed": ILLCOND_C,
         "distinct_nontrivial": sum(1 for j in jobs + wjobs if j["kdim"] >= 2),
-        "rule": "one TLC state = (system, m); replayed through gmres() and inv(A, GMRES()) @ b at two tolerances; non-trivial = "
-                "Krylov dimension >= 2 (truncated iterates exist)",
+        "rule": "one TLC state = (system, m); replayed through gmres() and inv(A, GMRES()) @ b at two tolerances (badly scaled "
+                "systems: float64 / float32 at a tolerance below the precision); non-trivial = Krylov dimension >= 2 "
+                "(truncated iterates exist)",
         "samples": [j["id"] for j in jobs[:: max(1, len(jobs) // 6)][:6]] + [j["id"] for j in wjobs[:: max(1, len(wjobs) // 4)][:4]],
         "exhaustive": False, "states_by_regime": regimes, "dropped_overflow": dropped,
         "catalog_systems": len(jobs), "catalog_matrices": len({j["mat"] for j in jobs}),
@@ -848,32 +904,14 @@ def run(tier):
     return common.finish(PROP, tier, t0, cov, viol, ASSUMPTIONS)
 
 
-def _observe_wide_any(arg):
-    kind, job = arg
-    return observe_wide(job) if kind == "single" else observe_wide_multi(job)
-
-
-def _observe_numeric(arg):
-    kind, x = arg
-    if kind == "random":
-        return kind, observe_random(x)
-    return kind, observe_illcond(x) + (x["dtype"], )
-
-
-def _pmap_small(fn, items):
-    """common.pmap runs serially below 64 items; the random systems are few but heavy."""
-    from concurrent.futures import ProcessPoolExecutor
-    items = list(items)
-    if len(items) <= 2:
-        return [fn(x) for x in items]
-    with ProcessPoolExecutor(max_workers=16) as ex:
-        return list(ex.map(fn, items, chunksize=1))
-
-
 def replay(path):
     v = json.load(open(path))
     r = v["replay"]
-    if r.get("monotone"):
+    if "wide_job" in r:
+        ms = {r["m"] - 1, r["m"]} if r.get("monotone") else {r["m"]}
+        res, _, _ = observe_wide(r["wide_job"], only=(r["dtype"], r["api"], ms - {0}))
+        res = [x for x in res if x.attrs.get("m") == r["m"] and (x.clause == "monotone") == bool(r.get("monotone"))]
+    elif r.get("monotone"):
         job = dict(r["job"])
         job["per_m"] = r["recs"]
         ms = [r["m"]] if r["m"] == 1 else [r["m"] - 1, r["m"]]
@@ -890,10 +928,6 @@ def replay(path):
     elif "random" in r:
         res, _, _ = observe_random((r["random"], r.get("tier", "quick")))
         res = [x for x in res if x.attrs.get("m") == r["m"]]
-    elif "wide_job" in r:
-        ms = {r["m"] - 1, r["m"]} if r.get("monotone") else {r["m"]}
-        res, _, _ = observe_wide(r["wide_job"], only=(r["dtype"], r["api"], ms - {0}))
-        res = [x for x in res if x.attrs.get("m") == r["m"] and (x.clause == "monotone") == bool(r.get("monotone"))]
     elif "wide_multi" in r:
         res, _, _ = observe_wide_multi(r["wide_multi"], only=(r["dtype"], r["api"], r["m"]))
         if "column" in r:
